@@ -10,6 +10,10 @@ A *scenario* is a list of script steps
     ["gift", dir, cid, ok]      resolve (ok) / fail the pending third-party reference of call cid (if pending)
     ["finish", dir, j, ok]      a method entered earlier (kind "slow": it returned a Deferred) completes / errbacks late
     ["turn"]                    one turn of foolscap's eventual-send queue
+    ["noise", what]             unrelated eventual-send: "nop" | "raise" | ["issue", dir, spec] (a queued callable that issues a call)
+
+With loopback=True the two brokers are joined by broker.LoopbackTransport (what a Tub uses to talk to itself): the bytes
+travel through the eventual queue, "deliver" steps do nothing, and only the direct oracle applies.
 
 While the script runs, instrumentation (instance-level wrappers; nothing in /repo is touched) logs the *model ops*
 that really happened, per direction -- Issue (when Broker.send receives the CallSlicer, also for calls issued from
@@ -45,12 +49,14 @@ class QTransport:
 
     def __init__(self):
         self.buf = bytearray()
+        self.log = bytearray()  # everything ever written
         self.written = 0      # total bytes ever written
         self.moved = 0        # total bytes ever delivered
         self.lost = False
 
     def write(self, data):
         self.buf += data
+        self.log += data
         self.written += len(data)
 
     def writeSequence(self, ds):
@@ -129,7 +135,9 @@ class Side:
 
     def __init__(self):
         self.stall = None
-        self.next_cid = 0
+        self.next_cid = 0       # ids are given when callRemote/callRemoteOnly is INVOKED: that is the issue order
+        self.meta = {}          # cid -> (kind, fate, stalls)
+        self.sent = []          # cids in the order Broker.send received their CallSlicer
         self.reqid2cid = {}
         self.serialized = {}    # cid -> byte offset at which its serialization ended
         self.order = []         # cids in the order their serialization ended
@@ -137,12 +145,22 @@ class Side:
 
 
 class World:
-    def __init__(self):
+    def __init__(self, loopback=False):
         E.reset_clock()
+        self.loopback = loopback
         self.A = broker.Broker(TubRef("brokerA"))
         self.B = broker.Broker(TubRef("brokerB"))
         self.brokers = [self.A, self.B]
-        self.tr = [QTransport(), QTransport()]      # tr[d] carries bytes of direction d (written by brokers[d])
+        if loopback:
+            # the pair a Tub uses to talk to itself: every write() is an eventual-send of peer.dataReceived, so the
+            # byte stream travels through foolscap.eventual's queue together with everything else that is queued there
+            t0, t1 = broker.LoopbackTransport(), broker.LoopbackTransport()
+            t0.setPeer(t1)
+            t1.setPeer(t0)
+            t0.protocol, t1.protocol = self.A, self.B
+            self.tr = [t0, t1]
+        else:
+            self.tr = [QTransport(), QTransport()]      # tr[d] carries bytes of direction d (written by brokers[d])
         self.A.transport = self.tr[0]
         self.B.transport = self.tr[1]
         for b in self.brokers:
@@ -176,17 +194,16 @@ class World:
 
         def send(obj):
             cid = None
-            if isinstance(obj, call.CallSlicer) and obj.methodname == "m":
-                cid = side.next_cid
-                side.next_cid += 1
-                if obj.kwargs.get("cid") != cid:
-                    self.errors.append("harness: cid mismatch %r %r" % (obj.kwargs.get("cid"), cid))
+            if isinstance(obj, call.CallSlicer) and obj.methodname == "m" and obj.kwargs.get("cid") in side.meta:
+                cid = obj.kwargs["cid"]
+                kind, fate, stalls = side.meta[cid]
+                obj.c04_kind = kind
+                side.sent.append(cid)
                 if obj.reqID:
                     side.reqid2cid[obj.reqID] = cid
-                self.cur_ops[d].append(("I", obj.c04_fate, obj.c04_stalls))
-                self.issued[d].append((cid, obj.c04_kind, obj.c04_stalls))
+                self.cur_ops[d].append(("I", fate, stalls))
             dd = real_send(obj)
-            if cid is not None:
+            if cid is not None and not self.loopback:
                 def done(res, cid=cid):
                     side.serialized[cid] = self.tr[d].written
                     side.order.append(cid)
@@ -229,7 +246,13 @@ class World:
         side = self.sides[d]
         kind = spec["kind"]
         stalls = spec.get("stalls", 0)
-        cid = side.next_cid
+        if kind == "local":
+            cid = -1            # refused by the caller's own schema check: never reaches the connection, takes no id
+        else:
+            cid = side.next_cid
+            side.next_cid += 1
+            side.meta[cid] = (kind, FATE.get(kind, 0), stalls)
+            self.issued[d].append((cid, kind, stalls))
         kw = dict(cid=cid, a=None, x=1, g=None)
         if stalls:
             kw["a"] = StallArg(side, stalls)
@@ -244,6 +267,15 @@ class World:
             kw["g"] = "slow"
         elif kind == "early":
             kw["x"] = "not-an-int"
+            if spec.get("body") == "long":
+                kw["x"] = "not-an-int/" * 9
+            elif spec.get("body") == "echo" and not self.loopback and side.order:
+                # the refused argument's body is the wire image of an earlier, complete call: if the receiver ever
+                # stops discarding it half-way, the rest parses as banana tokens
+                ends = sorted(side.serialized[c] for c in side.order)
+                end = ends[-1]
+                start = ends[-2] if len(ends) > 1 else 0
+                kw["x"] = bytes(self.tr[d].log[start:end])
         elif kind == "abort":
             kw["g"] = Unserializable()
         elif kind == "late":
@@ -253,23 +285,25 @@ class World:
             useschema = True
         if spec.get("reenter"):
             self.reenter[(d, cid)] = list(spec["reenter"])
-        # the CallSlicer is created inside _callRemote; tag it when Broker.send sees it
-        S = self.brokers[d]
-        inner = S.send
+        if spec.get("only"):
+            self.rrefs[d].callRemoteOnly("m", _useSchema=useschema, **kw)
+        else:
+            dd = self.rrefs[d].callRemote("m", _useSchema=useschema, **kw)
+            dd.addBoth(lambda r, cid=cid, d=d, kind=kind: self.results[d].setdefault((cid, kind), short(r)))
 
-        def tagging_send(obj, inner=inner):
-            if isinstance(obj, call.CallSlicer):
-                obj.c04_kind, obj.c04_fate, obj.c04_stalls = kind, FATE.get(kind, 0), stalls
-            return inner(obj)
-        S.send = tagging_send
-        try:
-            if spec.get("only"):
-                self.rrefs[d].callRemoteOnly("m", _useSchema=useschema, **kw)
-            else:
-                dd = self.rrefs[d].callRemote("m", _useSchema=useschema, **kw)
-                dd.addBoth(lambda r, cid=cid, d=d, kind=kind: self.results[d].setdefault((cid, kind), short(r)))
-        finally:
-            S.send = inner
+    def noise(self, what):
+        """unrelated traffic on foolscap.eventual's queue: a callable that does nothing, one that raises (it is only
+        logged), or one that issues a call when its turn comes"""
+        from foolscap.eventual import eventually
+        if what == "nop":
+            eventually(lambda: None)
+        elif what == "raise":
+            def boom():
+                raise RuntimeError("unrelated eventual-send callback fails")
+            eventually(boom)
+        else:
+            _, d, spec = what
+            eventually(self.issue, d, spec)
 
     def release(self, d):
         side = self.sides[d]
@@ -279,6 +313,8 @@ class World:
             st.callback(None)
 
     def deliver(self, d, chunks):
+        if self.loopback:
+            return          # the eventual queue moves the bytes
         side, tr, R = self.sides[d], self.tr[d], self.brokers[1 - d]
         if side.delivered < len(side.order):
             cid = side.order[side.delivered]
@@ -349,7 +385,7 @@ class World:
         S, R, side = self.brokers[d], self.brokers[1 - d], self.sides[d]
 
         def tracked(o):
-            return isinstance(o, call.CallSlicer) and o.methodname == "m" and hasattr(o, "c04_kind")
+            return isinstance(o, call.CallSlicer) and o.methodname == "m" and o.kwargs.get("cid") in side.meta
         sendq = [o.kwargs["cid"] for (o, _) in S.rootSlicer.sendQueue if tracked(o)]
         cur = None
         if len(S.slicerStack) > 1 and tracked(S.slicerStack[1][0]):
@@ -377,7 +413,7 @@ class World:
                 if side.stall is not None and not side.stall.called:
                     self.release(d)
                     moved = True
-                if self.tr[d].written > self.tr[d].moved:
+                if not self.loopback and self.tr[d].written > self.tr[d].moved:
                     self.deliver(d, None)
                     moved = True
                 if self.pending_gifts(d):
@@ -430,10 +466,10 @@ def short(r):
     return r
 
 
-def run_scenario(script, final_quiesce=True):
+def run_scenario(script, final_quiesce=True, loopback=False):
     """-> dict(obs=[per step: [obs dir0, obs dir1]], ops=[per dir: per step: [op...]], events, issued, results, errors)"""
     with E.quiet():
-        w = World()
+        w = World(loopback=loopback)
         obs = []
         for st in script:
             if st[0] == "issue":
@@ -448,6 +484,8 @@ def run_scenario(script, final_quiesce=True):
                 w.turn()
             elif st[0] == "finish":
                 w.finish(st[1], st[2], st[3])
+            elif st[0] == "noise":
+                w.noise(st[1])
             else:
                 raise ValueError(st)
             obs.append(w.end_step())
@@ -455,9 +493,9 @@ def run_scenario(script, final_quiesce=True):
         if final_quiesce:
             w.quiesce()
             obs.append(w.end_step())
-        lost = [b.transport.lost for b in w.brokers]
+        lost = [(not b.transport.connected) if loopback else b.transport.lost for b in w.brokers]
     return dict(obs=obs, ops=w.ops, events=w.events, issued=w.issued, results=w.results, errors=w.errors,
-                nsteps=nsteps, lost=lost)
+                nsteps=nsteps, lost=lost, sent=[w.sides[0].sent, w.sides[1].sent])
 
 
 class LocalTarget(Referenceable):
@@ -468,21 +506,51 @@ class LocalTarget(Referenceable):
         self.entered.append(i)
 
 
-def run_local(ops):
-    """LocalReferenceable.callRemote: 'I' issues the next call, 'T' runs one eventual turn"""
+def run_local(ops, mode="local"):
+    """the eventual queue as a channel.  'I' writes the next item -- mode "local": LocalReferenceable.callRemote,
+    mode "loopback": broker.LoopbackTransport.write of one byte --, 'N' queues an unrelated callable, 'B' one that
+    raises, 'S' one that writes the next item when it runs, 'T' runs one batch.  -> items in the order delivered"""
     from foolscap.referenceable import LocalReferenceable
+    from foolscap.eventual import eventually
     with E.quiet():
         E.reset_clock()
-        t = LocalTarget()
-        lr = LocalReferenceable(t)
-        n = 0
+        got = []
+        n = [0]
+        if mode == "local":
+            t = LocalTarget()
+            t.entered = got
+            lr = LocalReferenceable(t)
+
+            def write():
+                lr.callRemote("m", n[0])
+                n[0] += 1
+        else:
+            class Sink:
+                def dataReceived(self, data):
+                    got.extend(bytearray(data))
+            t0, t1 = broker.LoopbackTransport(), broker.LoopbackTransport()
+            t0.setPeer(t1)
+            t1.setPeer(t0)
+            t1.protocol = Sink()
+
+            def write():
+                t0.write(bytes(bytearray([n[0]])))
+                n[0] += 1
+
+        def boom():
+            raise RuntimeError("unrelated eventual-send callback fails")
         for o in ops:
             if o == "I":
-                lr.callRemote("m", n)
-                n += 1
+                write()
+            elif o == "N":
+                eventually(lambda: None)
+            elif o == "B":
+                eventually(boom)
+            elif o == "S":
+                eventually(write)
             else:
                 one_turn()
-        return list(t.entered)
+        return list(got)
 
 
 # ---------------------------------------------------------------------------------------------------------------
